@@ -1,5 +1,5 @@
 """Which properties are claimed, at what level, and why (source of MANIFEST.json)."""
-HOOK_COMMITS = ["afda2b8", "88d2dc4", "acb4ee3", "8205e71", "74de000"]
+HOOK_COMMITS = ["afda2b8", "88d2dc4", "acb4ee3", "8205e71", "74de000", "52ac3a2", "54e4b2e"]
 NOTES = ("Technique: model-based verification with an explicit TLA+ specification (spec/), checked with TLC, bound to the "
          "implementation by conformance checks in both directions. See DESIGN.md.")
 NOT_CLAIMED = {}
@@ -8,6 +8,7 @@ _RULES_NOTE = ("Trusted: TLC/SANY/CommunityModules; ChessRules.tla as the statem
                "within the BFS bound around the seed positions; beyond that positions are sampled by specification-driven random games "
                "and recorded engine games.")
 _UCI_NOTE = "Trusted: TLC; the isready fence for command boundaries; python tokenisation of output lines. Scripts are sampled behaviours of Uci.tla (TLC -simulate over UciGen.tla); the searcher's internal state is abstracted to 'arbitrary' in the specification."
+_SEARCH_NOTE = "Trusted: TLC; the harness graph builder (uses the engine's move generator to enumerate, validated node by node against ChessRules.tla for a sample of graphs, otherwise covered by C01/C02/C17); the engine's static evaluation as leaf values. Restricted to positions whose full quiescence tree is finite and below the node cap."
 CHECKS = {
     "C01": dict(
         text="Chess.tla states the rules (legality = pseudo-legal and own king not attacked afterwards, independent of the engine's "
@@ -108,4 +109,35 @@ CHECKS = {
         design_ref="DESIGN.md section 5, C12",
         note="Trusted: TLC; the capture hook placed right before find_best_move. Exhaustive over the stated grid only.",
         technique="TLA+ relation spec; TLC-enumerated go commands through the real parser (hook); TLC trace validation"),
+    "C05": dict(
+        text="Design: Search.tla (PlusCal transcription of find_best_move/negamax/search_until_quiet, table, repetition rule, clock process) "
+             "is model-checked on abstract game graphs for every leaf valuation and child order: ResultIsMinimax, TTSound. Conformance "
+             "(verdict): for real positions with a finite quiescence tree the harness dumps the game graph and what completed fixed-depth "
+             "searches of a fresh engine concluded (score, move, EVERY table entry); TLC computes the unpruned quiescence value and minimax "
+             "from the graph alone and audits root value, move and every cached claim (SearchAudit.tla).",
+        design_ref="DESIGN.md section 5, C05", note=_SEARCH_NOTE,
+        technique="TLA+/PlusCal search spec model-checked by TLC; game-graph dump of real searches audited by TLC (trace validation)"),
+    "C06": dict(
+        text="Design: Search.tla with a clock process that may expire at any atomic step, one or two interrupted searches before a completed "
+             "one: TTSound at all times, ResultIsMinimax, NothingLeftBehind (the pre-repair behaviour StoreOnAbort=TRUE is kept as a "
+             "regression model TLC must reject). Conformance: for every node count k = 1..total AND every poll index j (the j-th "
+             "should_stop() is the first to answer true) of real searches: interrupted search(es), then a completed one; TLC audits every "
+             "cached claim left behind, every later result against minimax, and the repetition stack length.",
+        design_ref="DESIGN.md section 5, C06", note=_SEARCH_NOTE + " Deadlines are injected through the node/poll-budget hook in SearchTimer::should_stop.",
+        technique="TLA+/PlusCal search spec with clock process model-checked by TLC; enumeration of every interruption point on the real search, audited by TLC"),
+    "C07": dict(
+        text="Design: Search.tla, Prompt: at most 2 node entries after the clock expired (1 under a node budget), for every expiry point. "
+             "Conformance: node budgets on the real search for ordinary and quiescence-explosive positions, depths 2..5: nodes entered "
+             "after the deadline <= 1, nothing entered after a true poll, at most 2 nodes between consecutive polls (a missing poll in a "
+             "loop shows as a gap of the size of its subtree); TLC validates the bounds (PromptTrace.tla). Wall clock recorded, only > 5 s overrun fails.",
+        design_ref="DESIGN.md section 5 and 7, C07",
+        note="The small-constant clause is decided in node units, not milliseconds. Budgets are sampled (every k only in the thorough tier up to the cap).",
+        technique="TLA+/PlusCal search spec model-checked by TLC; node-budget traces of the real search validated by TLC"),
+    "C08": dict(
+        text="Design: Search.tla on graphs with mated/stalemated terminals: MateInOnePlayed (depth 1..3), NoAvoidableMateAllowed (depth 2..3) "
+             "for every valuation and order. Conformance: candidate positions from engine playouts; TLC recomputes MateInOne / "
+             "AllowsMateInOne from ChessRules.tla and validates the answers of completed searches of a fresh engine at depths 1..4 / 2..3 "
+             "(MateTrace.tla); candidates the specification does not confirm are skipped.",
+        design_ref="DESIGN.md section 5, C08", note="Trusted: TLC, ChessRules.tla. Positions sampled.",
+        technique="TLA+/PlusCal search spec model-checked by TLC; TLC trace validation of real search answers against the rules spec"),
 }
